@@ -23,6 +23,13 @@ Q_KSet == {-2, -1, 0, 2}
 Q_CColSet == {0, 1, 8, 9, 1728}
 Q_RowSet == {0, 3}
 Q_DmgSet == {0, 2}
+\* the quick model also covers the exact limits (the quick case table takes
+\* them from Gen_FilterParams.FLLimit / CCLimit instead of the full product)
+QM_ColSet == Q_ColSet \cup {1048575, 1048576, 1048577}
+QM_CColSet == Q_CColSet \cup {1048575, 1048576, 1048577}
+QM_RowSet == Q_RowSet \cup {1048576, 1048577}
+QM_DmgSet == Q_DmgSet \cup {1048576, 1048577}
+QM_ColorSet == Q_ColorSet \cup {60, 61, 256, 257}
 T_PredSet == {-1, 0, 1, 2, 3, 9, 10, 11, 12, 13, 14, 15, 16}
 T_ColorSet == {-1, 0, 1, 2, 3, 4, 5, 60, 61}
 T_BpcSet == {-8, 0, 1, 2, 3, 4, 8, 16, 32}
